@@ -136,14 +136,12 @@ func run(sc *Scenario, st *stats) *verr {
 	case sc.Plain:
 		c = &traceClient{Client: inner, w: w}
 		st.label("plain-client")
-	case sc.NilCallbacks:
-		c = client.Reconnect(&traceClient{Client: inner, w: w}, nil, nil)
-		st.label("reconnect-nil-callbacks")
 	default:
-		c = client.Reconnect(&traceClient{Client: inner, w: w},
+		var l string
+		c, l = mkReconnect(&traceClient{Client: inner, w: w}, sc.NilCallbacks, sc.Callbacks,
 			func() { w.record("disconnect", -1, "") },
 			func() { w.record("reset", -1, "") })
-		st.label("reconnect-client")
+		st.label(l)
 	}
 	// The caller's context: its shape is generated (ctxKinds). A context that
 	// ends by a deadline does so at the stop instant by itself.
@@ -168,7 +166,10 @@ func run(sc *Scenario, st *stats) *verr {
 	} else {
 		q.NotificationHandler = w.appNotification
 	}
-	q = mkQuery(sc.Query, q, w)
+	q = mkQueryOpts(mkQuery(sc.Query, q, w), sc.QOpts)
+	for _, o := range sc.QOpts {
+		st.label("query-opt:" + o)
+	}
 	refused := queryRefused(sc.Query, sc.Plain, sc.Client == "cache")
 
 	sleepUntil := func(at time.Duration) {
@@ -191,7 +192,8 @@ func run(sc *Scenario, st *stats) *verr {
 	subscribe := func() {
 		w.record("sub-call", -1, "")
 		go func() {
-			err := c.Subscribe(ctx, q, sc.clientTypes()...)
+			err := guarded(func() error { return c.Subscribe(ctx, q, sc.clientTypes()...) })
+			w.notePanic("Subscribe", err)
 			w.record("ret", -1, fmt.Sprint(err))
 		}()
 		synctest.Wait()
@@ -199,7 +201,8 @@ func run(sc *Scenario, st *stats) *verr {
 	closeClient := func() {
 		w.record("close-call", -1, "")
 		go func() {
-			err := c.Close()
+			err := guarded(c.Close)
+			w.notePanic("Close", err)
 			w.mu.Lock()
 			w.events = append(w.events, event{Kind: "close-ret", Attempt: -1, At: w.now(), Note: fmt.Sprint(err)})
 			if w.closeRet < 0 {
@@ -396,6 +399,10 @@ func run(sc *Scenario, st *stats) *verr {
 	st.attempts = w.nBegin
 	st.msgs = w.nextMsg
 	w.labels(st)
+	if w.paniced != "" {
+		// (takes precedence: what followed the panic is its consequence)
+		v = newVerr("panic", "%s", w.paniced)
+	}
 	if v == nil && refused {
 		// A Subscribe call the client documents to fail at once.
 		var call, ret event
@@ -456,63 +463,12 @@ func (w *world) judge(st *stats, stopAt time.Duration) *verr {
 			}
 		}
 	}
-	// (2) disconnect once per ended attempt, reset once before each retry, in that order.
-	if !sc.Plain && !sc.NilCallbacks {
-		const (
-			idle    = iota // before the first attempt / after reset
-			running        // between sub-begin and sub-end
-			ended          // after sub-end, disconnect due
-			disc           // after disconnect: reset (then retry) or return
-		)
-		state, attempt, resets := idle, -1, 0
-		first := true
-		for _, e := range w.events {
-			switch e.Kind {
-			case "sub-begin":
-				switch state {
-				case idle:
-					if !first && resets != 1 {
-						return newVerr("reset-discipline", "attempt %d began at %v after %d reset calls (want exactly one before each retry)", e.Attempt, e.At, resets)
-					}
-				case disc:
-					return newVerr("reset-discipline", "attempt %d began at %v without a reset call after the disconnect of attempt %d", e.Attempt, e.At, attempt)
-				case ended:
-					return newVerr("disconnect-discipline", "attempt %d began at %v without a disconnect call for ended attempt %d", e.Attempt, e.At, attempt)
-				default:
-					return newVerr("harness-error", "attempt %d began while attempt %d was running", e.Attempt, attempt)
-				}
-				state, attempt, first, resets = running, e.Attempt, false, 0
-			case "sub-end":
-				state = ended
-			case "disconnect":
-				switch state {
-				case ended:
-					state = disc
-				case disc, idle:
-					return newVerr("disconnect-discipline", "disconnect called again at %v for ended attempt %d (want once per ended attempt)", e.At, attempt)
-				case running:
-					return newVerr("disconnect-discipline", "disconnect called at %v while attempt %d was still running", e.At, attempt)
-				}
-			case "reset":
-				switch state {
-				case disc:
-					state, resets = idle, 1
-				case idle:
-					resets++
-					if !first {
-						return newVerr("reset-discipline", "reset called %d times at %v before the retry after attempt %d", resets, e.At, attempt)
-					}
-					return newVerr("reset-discipline", "reset called at %v before the first attempt", e.At)
-				case ended:
-					return newVerr("reset-discipline", "reset called at %v before the disconnect call for ended attempt %d", e.At, attempt)
-				case running:
-					return newVerr("reset-discipline", "reset called at %v while attempt %d was running (want before the retry)", e.At, attempt)
-				}
-			case "ret":
-				if state == ended {
-					return newVerr("disconnect-discipline", "Subscribe returned at %v without a disconnect call for ended attempt %d", e.At, attempt)
-				}
-			}
+	// (2) disconnect once per ended attempt, reset once before each retry, in
+	// that order - for the callbacks that were given (callbacks.go).
+	if !sc.Plain {
+		hasDisc, hasReset := callbacksGiven(sc.NilCallbacks, sc.Callbacks)
+		if v := judgeCallbacks(cbEvents(w.events), hasDisc, hasReset, false); v != nil {
+			return v
 		}
 	}
 	// (3) after Close returned at most the notifications of one further message.
